@@ -17,7 +17,7 @@ class FakeServer(ScriptedPeer):
     extras      packets (wire strings) that ride on the handshake response after OPEN
     upgrades    list advertised in OPEN
     poll_mode   'normal' | 'silence' | 'drop' | 'status500' | 'garbage'
-    post_mode   'ok' | 'drop' | 'status400'
+    post_mode   'ok' | 'drop' | 'status400' | 'hold' (the POST stays in flight until the harness sets ``hold = False``)
     ws_mode     'ok' | 'refuse' | 'non-open' | 'no-open'
     probe_reply '3probe' | any other frame | None (never answers)
     """
@@ -29,6 +29,7 @@ class FakeServer(ScriptedPeer):
         self.upgrades = ['websocket']
         self.poll_mode = 'normal'
         self.post_mode = 'ok'
+        self.hold = True
         self.ws_mode = 'ok'
         self.probe_reply = '3probe'
         self.outbox = []           # wire packets waiting for the next poll
@@ -122,6 +123,14 @@ class FakeServer(ScriptedPeer):
                 raise Refuse()
             if self.post_mode == 'status400':
                 return HttpResult(400, b'"bad"')
+            if self.post_mode == 'hold' and self.hold:
+                def held():
+                    if self.hold:
+                        return None
+                    for t, d in split_payload(text):
+                        self.received.append(('polling', t, d))
+                    return HttpResult(200, b'OK')
+                return held
             for t, d in split_payload(text):
                 self.received.append(('polling', t, d))
             return HttpResult(200, b'OK')
